@@ -51,6 +51,8 @@ Record ctx_table := {
   ct_get : list (list name * loc);             (* get_register_always arms, in order; `_ => unreachable!` *)
   ct_set : list (list name * loc);             (* set_register arms, in order; `_ => return None` *)
   ct_memo : list (list name * name);         (* memoize_register arms; `_ => default_memoize_register(REGISTERS, reg)` *)
+  ct_memo_cmp : Z;                               (* the comparison inside default_memoize_register's `position` closure:
+                                                    0 = `*val == reg` (exact), 1 = eq_ignore_ascii_case *)
   ct_groups : list (list name * list name);  (* register_is_valid, Some(which): patterns => which.contains(a) || ...; `_ => which.contains(reg)` *)
   ct_sp_name : name;                           (* stack_pointer_register_name() *)
   ct_ip_name : name;                           (* instruction_pointer_register_name() *)
